@@ -31,6 +31,9 @@ func init() {
 }
 
 func runC09(w *World, r *Report) {
+	hrEarlyResponseNotRewritten(w, r, "R6")
+	hrNoDedupBeforeUniqueness(w, r, "R5")
+	hrParseHeaders(w, r, "R5")
 	la := NewLockAn(w)
 	// R1 guarded-by
 	checkGB(w, r, la, "R1", []GuardRow{
